@@ -25,6 +25,7 @@ import (
 	df "github.com/awslabs/ar-go-tools/analysis/dataflow"
 	"github.com/awslabs/ar-go-tools/analysis/lang"
 	"github.com/awslabs/ar-go-tools/internal/formatutil"
+	"github.com/awslabs/ar-go-tools/internal/verifhook"
 	"golang.org/x/tools/go/ssa"
 )
 
@@ -128,6 +129,7 @@ func (v *Visitor) Visit(s *df.AnalyzerState, source df.NodeWithTrace) {
 	// Search from path candidates in the inter-procedural flow graph from sources to sinks
 	// we don't revisit only if it has been visited with the same call stack
 	for len(que) != 0 {
+		verifhook.At("taint.Visit.step")
 		cur := que[0]
 		que = que[1:]
 		// Report coverage information for the current node
